@@ -253,10 +253,12 @@ SYMBOLIC = (Sym, SRef, Choice, SInt, Poison)
 class Store:
   def __init__(self):
     self.tmp = {}
+    self.alias = {}        # local name -> signal ranges its (snapshotted) value aliases in the real code
     self.sig = {}          # g -> sorted disjoint [(lo, w, expr)]
   def copy(self):
     s = Store()
     s.tmp = dict(self.tmp)
+    s.alias = dict(self.alias)
     s.sig = {g: list(v) for g, v in self.sig.items()}
     return s
   def write(self, g, lo, w, e):
@@ -549,7 +551,13 @@ class BlockTx:
         raise self.bad(n, 'plain assignment to something that is not a local name')
       v = self.eval(n.value)
       if isinstance(v, SRef) and v.sliced: v = self.rv(v, n)        # a slice is a fresh Bits object: snapshot
-      if isinstance(v, Choice): v = self.rv(v, n)
+      self.st.alias.pop(n.targets[0].id, None)
+      if isinstance(v, Choice):
+        # the real local is the selected Bits object itself; we keep its value: a later write to one of the candidates
+        # (in this block) would be visible through the real alias, so that poisons the local (see assign)
+        rs = self.choice_ranges(v)
+        if rs and not self.is_ff: self.st.alias[n.targets[0].id] = rs
+        v = self.rv(v, n)
       self.st.tmp[n.targets[0].id] = self.lift(v)
       return
     if isinstance(n, ast.AugAssign):
@@ -587,8 +595,17 @@ class BlockTx:
       return
     raise self.bad(n, f'statement {type(n).__name__}')
 
+  def choice_ranges(self, v):
+    out = []
+    for a in v.alts:
+      if isinstance(a, Choice): out += self.choice_ranges(a)
+      elif isinstance(a, SRef) and not a.sliced: out.append((a.g, a.lo, a.w))
+    return out
+
   def merge(self, c, A, B, node):
     out = Store()
+    for S in (A, B):
+      for k, rs in S.alias.items(): out.alias[k] = out.alias.get(k, []) + rs
     for g in sorted(set(A.sig) | set(B.sig)):
       cuts = sorted({x for S in (A, B) for (l, w, _) in S.sig.get(g, []) for x in (l, l + w)})
       segs = []
@@ -631,6 +648,10 @@ class BlockTx:
       e = mk_mux(cond, e, self.st.read(tgt.g, tgt.lo, tgt.w))
     e = self.lift(Sym(tgt.w, e)).e
     self.st.write(tgt.g, tgt.lo, tgt.w, e)
+    for name, rs in list(self.st.alias.items()):
+      if any(overlap(r, (tgt.g, tgt.lo, tgt.w)) for r in rs):
+        self.st.tmp[name] = Poison(f'local {name!r} is the Bits object selected by a variable index and one of the candidates is written afterwards')
+        del self.st.alias[name]
 
   def coerce_assign(self, v, w, node, struct=False):
     """value stored by `@=` / `<<=` / `BitsN(v)` into w bits"""
@@ -698,6 +719,7 @@ class BlockTx:
   def truth(self, v, node):
     v = self.rv(v, node)
     if isinstance(v, Sym):
+      if v.T is not None: raise self.bad(node, 'truth value of a bitstruct (always True in the real code)')
       if v.e[0] == 'c': return 'static', v.e[2] != 0
       return 'dyn', v
     if isinstance(v, SInt): raise self.bad(node, 'truth value of a signal-dependent int')
@@ -743,6 +765,9 @@ class BlockTx:
       try: return self.wrap(PYBIN[op](l, r))
       except Exception as e: raise self.bad(node, f'{type(e).__name__}: {e}')
     if op not in BINOPS.values() and op not in CMPS: raise self.bad(node, f'operator {op} on Bits')
+    lt, rt_ = getattr(l, 'T', None), getattr(r, 'T', None)
+    if lt is not None or rt_ is not None:
+      if not (op in ('eq', 'ne') and lt is rt_): raise self.bad(node, f'operator {op} on bitstruct values')
     if ls and rs:
       if l.w != r.w: raise self.bad(node, f'operands Bits{l.w} and Bits{r.w} (the real code raises)')
       return Sym(1 if op in CMPS else l.w, mk_bin(op, l.w, l.e, r.e))
@@ -941,7 +966,7 @@ class BlockTx:
     if f is dt.concat:
       acc = None
       for v in vals:
-        if not isinstance(v, Sym): raise self.bad(n, 'concat of a non-Bits value (the real code raises)')
+        if not isinstance(v, Sym) or v.T is not None: raise self.bad(n, 'concat of a non-Bits value (the real code raises)')
         acc = v if acc is None else Sym(acc.w + v.w, mk_cat(acc.e, v.w, v.e))
       if acc is None: raise self.bad(n, 'empty concat')
       return Sym(acc.w, acc.e)
